@@ -69,11 +69,14 @@ def cases(tier, seed):
                 out.append(dict(part="lin", shape=shape_l, grid=g, exact=exact, boxes=[c0, min(nb_l, c0 + chunk_l)], conf=(c0 == 0), tier=tier, seed=seed))
             out.append(dict(part="lin-subsets", shape=shape_l, grid=g, exact=exact, tier=tier, seed=seed))
     mats = [("iso", None), ("diag", "diag"), ("full", "iso")] if tier == "quick" else [("iso", None), ("diag", "diag"), ("full", "iso"), ("full", "full"), ("diag", "iso")]
+    quick_menu = {("uniform", 0, False), ("uniform", 2, True), ("rect_distinct", 1, False), ("rect_distinct", 2, False), ("rect_distinct", 1, True), ("rect_seed", 1, False), ("rect_seed", 2, True)}
     for gi, g in enumerate(grids):
         for mi, (eps, mu) in enumerate(mats):
             for exact in (False, True):
                 if exact and (mi + gi) % 2:
                     continue  # the exact-interpolation variant rotates through the material/grid menu
+                if tier == "quick" and (g, mi, exact) not in quick_menu:
+                    continue  # quick: every grid, material tier and interpolation mode occurs, not their full product
                 for c0 in range(0, nb_q, chunk_q):
                     out.append(dict(part="quad", shape=shape_q, grid=g, eps=eps, mu=mu, exact=exact, cplx=False, boxes=[c0, min(nb_q, c0 + chunk_q)], conf=(c0 == 0 and mi == 1), seed=seed))
     # complex fields (sesquilinear forms): singles e, i*e and pairs e_i+e_j, e_i+i*e_j
